@@ -185,6 +185,14 @@ def write (H : HashFn) : Nat → List Entry → Out
     let content := Obj.encode .tree data
     ⟨(parts.map (·.1)).flatten ++ [(H.sha content, content)], H.sha content⟩
 
+/-- the node structure `writeTreeObject` produces (same grouping, same ids): what `walkTree` reads back
+    from the store afterwards (proved: `C05.walk_write`) -/
+def build (H : HashFn) : Nat → List Entry → List Node
+  | 0, _ => []
+  | f + 1, es => (group [] [] es).map fun
+      | .leaf n i => Node.mk n i []
+      | .dir d sub => Node.mk d (write H f sub).id (build H f sub)
+
 /-- enough fuel for every entry list: one level per path byte -/
 def fuelFor (es : List Entry) : Nat := (es.map (fun e => e.path.length)).sum + 1
 
